@@ -1,0 +1,15 @@
+//go:build verif
+
+package verifspec
+
+// Trusted contracts of dependencies (not verified; every use is listed in the evidence).
+
+//@ extern github.com/bytedance/gopkg/lang/span.spanCache.Copy
+//@   ensures len(p) == len(buf) && cap(p) == len(buf) && fresh(p) && eqbytes(p, 0, buf, 0, len(buf))
+//@   assigns \nothing
+
+//@ extern github.com/bytedance/gopkg/lang/dirtmake.Bytes
+//@   params n, c
+//@   requires 0 <= n && n <= c
+//@   ensures len(b) == n && cap(b) == c && fresh(b) && offset(b) == 0 && rsize(region(b)) == c
+//@   assigns \nothing
